@@ -11,7 +11,8 @@ import (
 )
 
 // nondetSites lists, from the SSA of the module's consensus packages, every construct whose behaviour may differ
-// between runs: range over a map, go statements, select, calls to time.Now / math/rand.
+// between runs: range over a map, go statements, select, reads of the wall clock (time.Now/Since/Until, timers), of
+// randomness (math/rand, crypto/rand) and of the process environment.
 func nondetSites(l *Loaded) []string {
 	var out []string
 	for _, p := range l.prog.AllPackages() {
@@ -52,7 +53,9 @@ func nondetSites(l *Loaded) []string {
 						if strings.HasSuffix(cn, ".init") {
 							continue
 						}
-						if cn == "time.Now" || strings.HasPrefix(cn, "math/rand.") || strings.HasPrefix(cn, "(*math/rand.Rand)") {
+						if cn == "time.Now" || cn == "time.Since" || cn == "time.Until" || cn == "time.After" || cn == "time.Tick" || cn == "time.NewTimer" || cn == "time.NewTicker" ||
+							strings.HasPrefix(cn, "math/rand.") || strings.HasPrefix(cn, "(*math/rand.Rand)") || strings.HasPrefix(cn, "crypto/rand.") ||
+							cn == "os.Getenv" || cn == "os.Hostname" || cn == "os.Getpid" {
 							out = append(out, "call to "+cn+" in "+name)
 						}
 					}
